@@ -34,7 +34,7 @@ pub fn string_of(s: &String) -> (r: String) ensures r@ == s@ { s.to_string() }
 pub struct Variable { pub order: usize, pub rest: u8 }
 pub struct Function { pub order: usize, pub rest: u8 }
 pub struct Expr { pub e: u8 }
-pub struct CompilerState { pub variables: HashMap<String, Variable>, pub functions: HashMap<String, Function> }
+pub struct CompilerState { pub variables: HashMap<String, Variable>, pub functions: HashMap<String, Function>, pub current_function: String }      // current_function: hidden state a rank expression might consult (any value)
 pub trait HasOrder { spec fn ord(&self) -> usize; }
 impl HasOrder for Variable { open spec fn ord(&self) -> usize { self.order } }
 impl HasOrder for Function { open spec fn ord(&self) -> usize { self.order } }
@@ -342,7 +342,24 @@ def build(repo):
     for k, m in enumerate(SITE_RE.finditer(comp.masked)):
         recv, field, key, ty, expr = m.group(1), m.group(2), text[m.start(3):m.end(3)].strip(), m.group(4), text[m.start(5):m.end(5)].strip()
         ln = line_of(text, m.start())
-        sites.append((ln, recv, field, key, ty, expr, "direct"))
+        how_ = "direct"
+        if "self.current_function" in expr:
+            # a rank expression that consults `self.current_function`: if the nearest assignment before the site, in an enclosing block, gives it the very key that
+            # is inserted (`self.current_function = name.clone();`), the field stands for that key; otherwise it is hidden state (whatever was compiled before)
+            asg = [a for a in re.finditer(r"self\.current_function\s*=\s*(\w+)(?:\.clone\(\))?;", comp.masked[:m.start()])]
+            if asg:
+                a = asg[-1]
+                between = comp.masked[a.end():m.start()]
+                depth, lowest = 0, 0
+                for ch in between:
+                    if ch == "{":
+                        depth += 1
+                    elif ch == "}":
+                        depth -= 1; lowest = min(lowest, depth)
+                if lowest == 0 and a.group(1) == key.strip().lstrip("&").replace(".clone()", "") and not re.search(r"\bfn \w+", between):
+                    expr = expr.replace("self.current_function", a.group(1))
+                    how_ = "direct; self.current_function == %s since line %d" % (a.group(1), line_of(text, a.start()))
+        sites.append((ln, recv, field, key, ty, expr, how_))
     # indirect sites (rank computed into a local first)
     for pat, key, how in ((r"let order = self\.variable_order\(&name\);\s*self\.variables\.insert\(\s*name,\s*Variable \{\s*order,", "name", "self.variable_order(&name)"),
                           (r"let var = Variable \{\s*order: ([^,]+),", "longname", None)):
